@@ -1,0 +1,131 @@
+//go:build verif
+
+// Package verifhook provides instrumentation points for the /verif conformance harness.
+// This is the verif-tagged implementation: everything is inert unless the corresponding
+// environment variable is set.
+//
+//	VERIF_TRACE=<file>     Event appends one JSON line per event (O_APPEND, one write per line)
+//	VERIF_CRASH_AT=<n>     the process SIGKILLs itself at the n-th Point it passes (1-based)
+//	VERIF_CRASH_NAME=<s>   ...counting only points whose name has this prefix
+//	VERIF_POINTS=<file>    Point appends its name to this file (records the sequence of points)
+//	VERIF_FAULT_AT=<name>:<n>  Fault(name) returns an error at its n-th call
+//	VERIF_DELAY_SEED=<n>   Point yields / sleeps a few microseconds pseudo-randomly
+package verifhook
+
+import (
+	"errors"
+	"fmt"
+	"os"
+	"runtime"
+	"strconv"
+	"strings"
+	"sync"
+	"syscall"
+	"time"
+)
+
+// Enabled reports whether hooks are compiled in.
+const Enabled = true
+
+var (
+	mu         sync.Mutex
+	seq        int
+	traceFile  *os.File
+	pointsFile *os.File
+	crashAt    int
+	crashName  string
+	pointCount int
+	faultName  string
+	faultAt    int
+	faultCount int
+	delaySeed  uint64
+	inited     bool
+)
+
+func initOnce() {
+	if inited {
+		return
+	}
+	inited = true
+	if p := os.Getenv("VERIF_TRACE"); p != "" {
+		traceFile, _ = os.OpenFile(p, os.O_WRONLY|os.O_APPEND|os.O_CREATE, 0644)
+	}
+	if p := os.Getenv("VERIF_POINTS"); p != "" {
+		pointsFile, _ = os.OpenFile(p, os.O_WRONLY|os.O_APPEND|os.O_CREATE, 0644)
+	}
+	crashAt, _ = strconv.Atoi(os.Getenv("VERIF_CRASH_AT"))
+	crashName = os.Getenv("VERIF_CRASH_NAME")
+	if f := os.Getenv("VERIF_FAULT_AT"); f != "" {
+		if i := strings.LastIndex(f, ":"); i > 0 {
+			faultName = f[:i]
+			faultAt, _ = strconv.Atoi(f[i+1:])
+		}
+	}
+	if s := os.Getenv("VERIF_DELAY_SEED"); s != "" {
+		n, _ := strconv.ParseUint(s, 10, 64)
+		delaySeed = n*2654435761 + 1
+	}
+}
+
+// Event records one trace event. It takes its own mutex only while assigning the sequence
+// number and writing the record; it never brackets an operation of the code under test.
+func Event(name string, kv ...string) {
+	mu.Lock()
+	defer mu.Unlock()
+	initOnce()
+	if traceFile == nil {
+		return
+	}
+	seq++
+	var b strings.Builder
+	fmt.Fprintf(&b, `{"seq":%d,"pid":%d,"ev":%q`, seq, os.Getpid(), name)
+	for i := 0; i+1 < len(kv); i += 2 {
+		fmt.Fprintf(&b, ",%q:%q", kv[i], kv[i+1])
+	}
+	b.WriteString("}\n")
+	traceFile.WriteString(b.String())
+}
+
+// Point marks a crash / delay point.
+func Point(name string) {
+	mu.Lock()
+	initOnce()
+	if pointsFile != nil {
+		pointsFile.WriteString(name + "\n")
+	}
+	if crashAt > 0 && strings.HasPrefix(name, crashName) {
+		pointCount++
+		if pointCount == crashAt {
+			syscall.Kill(os.Getpid(), syscall.SIGKILL)
+			time.Sleep(time.Hour)
+		}
+	}
+	d := uint64(0)
+	if delaySeed != 0 {
+		delaySeed ^= delaySeed << 13
+		delaySeed ^= delaySeed >> 7
+		delaySeed ^= delaySeed << 17
+		d = delaySeed % 8
+	}
+	mu.Unlock()
+	switch {
+	case d == 1 || d == 2:
+		runtime.Gosched()
+	case d == 3:
+		time.Sleep(time.Duration(delaySeed%200) * time.Microsecond)
+	}
+}
+
+// Fault returns an injected error at a named fault point, if armed.
+func Fault(name string) error {
+	mu.Lock()
+	defer mu.Unlock()
+	initOnce()
+	if faultName != "" && name == faultName {
+		faultCount++
+		if faultCount == faultAt {
+			return errors.New("verifhook: injected fault at " + name)
+		}
+	}
+	return nil
+}
